@@ -629,8 +629,10 @@ func ruleWalkArms(p *Prog, r *Report, names []string) {
 		}
 		listOK, childOK := "", ""
 		var listWhy, childWhy string
-		for _, c := range selfCalls(fn) {
-			arg := c.Call.Args[ni]
+		calls := p.encodeCalls(fn)
+		for _, ec := range calls {
+			c := ec.call
+			arg := ec.args[ni]
 			u, ok := arg.(*ssa.UnOp)
 			if !ok {
 				continue
@@ -643,7 +645,7 @@ func ruleWalkArms(p *Prog, r *Report, names []string) {
 			if isRangeIndex(ia.Index) && assertOfPhi(ia.X, nodeP) {
 				if _, isIface := ia.X.Type().Underlying().(*types.Slice).Elem().Underlying().(*types.Interface); isIface {
 					hdr := ia.Index.(*ssa.BinOp).X.(*ssa.Phi).Block()
-					sameKey := c.Call.Args[ki] == ssa.Value(keyP)
+					sameKey := ec.args[ki] == ssa.Value(keyP)
 					why := p.callsCoverBody(fn, []*ssa.Call{c}, hdr, nil)
 					if sameKey && why == "" {
 						listOK = p.Pos(c.Pos())
@@ -660,8 +662,9 @@ func ruleWalkArms(p *Prog, r *Report, names []string) {
 			}
 		}
 		// keyval form (sequence encoder): node argument is a field load
-		for _, c := range selfCalls(fn) {
-			arg := c.Call.Args[ni]
+		for _, ec := range calls {
+			c := ec.call
+			arg := ec.args[ni]
 			if u, ok := arg.(*ssa.UnOp); ok {
 				if fa, ok := u.X.(*ssa.FieldAddr); ok && fieldName(fa.X.Type(), fa.Field) == "v" {
 					childOK = p.Pos(c.Pos())
@@ -683,7 +686,8 @@ func ruleWalkArms(p *Prog, r *Report, names []string) {
 			// the child loop must cover its body
 			var cc []*ssa.Call
 			var hdr *ssa.BasicBlock
-			for _, c := range selfCalls(fn) {
+			for _, ec := range calls {
+				c := ec.call
 				if p.Pos(c.Pos()) == childOK {
 					cc = append(cc, c)
 					hdr = innermostLoopHeader(c.Block())
